@@ -77,6 +77,22 @@ def systematic():
                 out.append(("alt", pre + "{q," + b + "}" + post, [pre + "q" + post, pre + b + post]))
                 out.append(("rep", pre + "<" + b + ":1,2>" + post, [pre + b + post, pre + b + b + post]))
                 out.append(("alt", pre + "{{" + b + "},q}" + post, [pre + b + post, pre + "q" + post]))
+    # a repetition whose body is NOTHING BUT another repetition: the iteration counts of the whole are the sums of k inner
+    # counts, not the hull of the product of the two ranges (<<a:2>:1,2> is aa or aaaa, never aaa)
+    inner_bounds = [(2, 2), (2, 3), (3, 4), (1, 2), (2, None), (0, 2), (0, None), (3, 3)]
+    outer_bounds = [(1, 2), (2, 3), (1, 3), (2, 2)]
+    def rb(lo, hi):
+        return ":%d,%s" % (lo, "" if hi is None else hi) if hi != lo else ":%d" % lo
+    for body in ["a", "ab", "a/", "[ab]", "{a,bc}"]:
+        for il, ih in inner_bounds:
+            inner = "<" + body + rb(il, ih) + ">"
+            for ol, oh in outer_bounds:
+                for pre, post in [("", ""), ("x", ""), ("", "y"), ("x/", "/y")] if body != "a/" else [("", ""), ("x", "y")]:
+                    whole = pre + "<" + inner + rb(ol, oh) + ">" + post
+                    parts = [pre + inner * k + post for k in range(ol, oh + 1)]
+                    out.append(("rep", whole, parts))
+            out.append(("rep", "x<" + inner + ":1,3>", ["x" + inner * k for k in (1, 2, 3)]))
+            out.append(("rep", "{<" + inner + ":1,2>,b}", ["{" + inner + ",b}", "{" + inner * 2 + ",b}"]))
     # combinators over NO patterns, alone and nested beside a member: the union of nothing is nothing
     out += [("any", None, []), ("any-compiled", None, []), ("any-owned", None, []), ("any-nested", None, []), ("any-nested", None, ["a"]),
             ("any-nested", None, ["a/**"]), ("any-nested", None, [""]), ("any-nested", None, ["*"]), ("any-nested", None, ["/**"])]
